@@ -268,14 +268,15 @@ def rule_no_process_text(ctx: Ctx, repo: Repo) -> None:
 def run(ctx: Ctx, repo: Repo, tier: str) -> None:
     ctx.trust("iteration order of a set is arbitrary: any permutation of insertion orders may occur", "sorted() is deterministic for distinct keys; equal keys keep input order (stable)")
     ctx.assume("merging of a set of types is order-independent (decided under C04, R-C04.4)")
-    rule_no_process_text(ctx, repo)
-    rule_eq_hash(ctx, repo)
-    rule_traces_to_sets(ctx, repo)
-    rule_render_order(ctx, repo)
-    rule_rewriters(ctx, repo)
+    ctx.attempt(rule_no_process_text, ctx, repo)
+    ctx.attempt(rule_eq_hash, ctx, repo)
+    ctx.attempt(rule_traces_to_sets, ctx, repo)
+    ctx.attempt(rule_render_order, ctx, repo)
+    ctx.attempt(rule_rewriters, ctx, repo)
     # stage conditions of C14 decided in full elsewhere: the query returns each distinct row once, whatever the row order
     # (C09); generated TypedDict classes of different functions are never merged or dropped by name (C06)
     from . import c06 as _c06, c09 as _c09
     ctx.note("R-C09.1-3 and R-C06.4 below are the stage rules of C09 and C06, run here as necessary conditions of C14")
-    _c09.rule_query(ctx, repo)
-    _c06.rule_class_stubs_kept_apart(ctx, repo)
+    ctx.attempt(_c09.rule_query, ctx, repo)
+    ctx.attempt(_c06.rule_class_stubs_kept_apart, ctx, repo)
+    ctx.settle()
